@@ -155,7 +155,23 @@ where
         }
         a
     });
-    if inexact {
+    if inexact && data.iter().fold(data.len() as u16, |a, b| a ^ *b) & 1 == 1 {
+        // a stream that is not fused: it ends at its first None, whatever it would yield when
+        // polled again must not reach the bus
+        let n = data.len() / N;
+        let mut it = it;
+        let mut polls = 0usize;
+        di.send_pixels(core::iter::from_fn(move || {
+            polls += 1;
+            if polls <= n {
+                it.next()
+            } else if polls == n + 1 || polls > n + 4 {
+                None
+            } else {
+                Some([DI::Word::from_u16(0xA5); N])
+            }
+        }))
+    } else if inexact {
         // lower bound 0, upper bound three more than what is really yielded
         let n = data.len() / N;
         let mut it = it;
